@@ -55,13 +55,14 @@ def obligation(prop, name=None, tiers=("quick", "thorough"), mandatory=True, par
         plist = params if params is not None else [None]
         for p in plist:
             nm = base if p is None else base + "[" + ",".join(f"{k}={_short(v)}" for k, v in p.items()) + "]"
-            if isinstance(p, dict) and "_tiers" in p:
-                tt = p["_tiers"]
-                p = {k: v for k, v in p.items() if k != "_tiers"}
+            mand = mandatory
+            tt = tiers
+            if isinstance(p, dict) and ("_tiers" in p or "_mandatory" in p):
+                tt = p.get("_tiers", tiers)
+                mand = p.get("_mandatory", mandatory)
+                p = {k: v for k, v in p.items() if k not in ("_tiers", "_mandatory")}
                 nm = base + "[" + ",".join(f"{k}={_short(v)}" for k, v in p.items()) + "]"
-            else:
-                tt = tiers
-            ob = Obligation(prop, nm, fn, tt, mandatory, p, opts)
+            ob = Obligation(prop, nm, fn, tt, mand, p, opts)
             REGISTRY.setdefault(prop, []).append(ob)
         return fn
 
@@ -441,13 +442,14 @@ def run_obligation(ob, seed, tier):
             if "Q-CERT" not in out["procedure"]:
                 out["procedure"].append("Q-CERT")
             diffs = [a - b for a, b in pairs]
+            derived = [h for _, h in P.HYP_DERIVED]
             r, info = D.q_cert(diffs, hyps, dstats, rounds=opts.get("rounds", 2),
                                timeout_ms=opts.get("solver_timeout_ms", 120000),
-                               max_rows=opts.get("max_rows", 120000))
+                               max_rows=opts.get("max_rows", 120000), derived=derived)
             if r == "sat" and opts.get("rounds2"):
                 r, info = D.q_cert(diffs, hyps, dstats, rounds=opts["rounds2"],
                                    timeout_ms=opts.get("solver_timeout_ms", 120000),
-                                   max_rows=opts.get("max_rows", 120000))
+                                   max_rows=opts.get("max_rows", 120000), derived=derived)
             out["stats"].setdefault("cert", []).append(info if len(out["stats"].get("cert", [])) < 5 else None)
             if r == "unsat":
                 return
